@@ -98,6 +98,10 @@ UNITS = {
             r'^verif_lift_sniff_': ['C16'],
         },
     },
+    'min_callsite': {
+        'template': 'min_callsite.vrs', 'backend': 'verus',
+        'serves': ['C16'],
+    },
     'n2k': {
         'template': 'n2k.vrs', 'backend': 'verus',
         'serves': ['C02', 'C03'],
@@ -200,6 +204,16 @@ PROPS = {
                       'float axiom A1 (Kani) and A4 `(c as f64 / b as f64).floor() as usize == c / b` (assumed, stated as the contract of stub verif_floor_div; CBMC did not finish on it); cmp::min, get_unchecked_mut assumed std contracts; '
                       'the counts table itself (count + merge) is C07; reading kmers.counts back (text parsing) is std.',
         'not_reached': ['build_table (counting and merging: C07)', 'parsing of kmers.counts', 'thread-count independence rests on rayon collect order (assumed)'],
+    },
+    'C16': {
+        'units': ['batch_loops', 'min_callsite', 'minimiser', 'kmer_minimiser'], 'deps': [], 'replay': 'c16',
+        'level_text': 'Every Verus bundle includes absence of panics (overflow, out-of-bounds, unwrap on None, unreachable panic!) for ALL inputs meeting the stated precondition. For C16 the '
+                      'deciding bundles are: the format-sniffing statements (3 copies) with a buffer of ANY length including 0; the four lifted batch loops (one row rendered per record, including '
+                      'records with no bases and the final flush); the two minimiser call sites of misc (window size 0, record shorter than m) against the precondition of MinimiserGenerator::new; '
+                      'both minimiser iterators (no panic, termination, no u64::MAX placeholder ever emitted) for every byte string.',
+        'level_note': 'trusted: as in C05/C08/C09/C18 (stubs for the record iterator, the row renderer/writer, imported precondition of MinimiserGenerator::new). Process-level behaviour (exit status, hangs, '
+                      'stderr, clap) is outside any function contract: not decided. KmerGenerator and the row functions are total on every byte string by their own contracts (C01/C04/C08).',
+        'not_reached': ['exit status / abort / hang of the process', 'counter subcommand degenerate inputs (C07 unit, if listed)', 'mmap of a zero-length output (memmap2 behaviour)'],
     },
 }
 
